@@ -306,6 +306,12 @@ def check_selection(ctx):
             ctx.undecided(rule, comp, label, 'cannot tell which kind of size / marker selects %s' % target, comp.node.lineno, clause='a')
             continue
         kinds.setdefault(k, set()).add(target)
+    # the search window is the class-level option
+    win = [e for p in paths for e in p.effects if e.kind == 'store_attr' and canon(e.obj) == 'self' and e.name == '_search_buffer_length']
+    if win and all(canon(e.value) == "bisturi_conf.get('search_buffer_length')" for e in win):
+        ctx.holds(rule, comp, "self._search_buffer_length = bisturi_conf.get('search_buffer_length')", 'the configured search window', win[0].lineno, clause='a')
+    else:
+        ctx.violation(rule, comp, '_search_buffer_length = %s' % sorted({canon(e.value) for e in win}), "the search window is not the class option search_buffer_length", comp.node.lineno, clause='a')
     want = {'int', 'field', 'callable', 'expression', 'bytes-marker', 'regex-marker'}
     missing = want - set(kinds)
     if missing:
@@ -407,4 +413,6 @@ def check(ctx):
     ctx.unit('flag_paths', nflag)
     ctx.floor('Data unpack strategies analysed', ctx.units.get('strategies', 0), 5)
     ctx.floor('(include, consume, window) paths', nflag, 10)
+    from ..model import check_conf_plumbing
+    check_conf_plumbing(ctx, 'C06-conf-plumbing', 'search_buffer_length')
     ctx.trust(*ASSUMPTIONS)
